@@ -43,4 +43,22 @@ def obligations(tier, seed):
                 tag = "" if style == "slice" else "@arange"
                 obs.append(Ob(f"C03/importance{list(sub)}{tag}/{nm}", f, (gfi.KEY, P.args, P.example_vals()), assume=lambda k, a, v, A=A: A(a, v),
                               note="weight == sum of reference log-densities of exactly the constrained sites; trace agrees with the constraint; score == reference joint at the trace's values"))
+    # ---- partially applied programs (closures gen_fn(*bound)) are programs too: bound arguments come first
+    for nm, nb in (("vmap(innerS;0,None)", 1), ("contramap(innerS)", 0), ("dimap(inner1)", 1), ("scan(walk)", 1)):
+        if nm not in cat:
+            continue
+        P = cat[nm]()
+        if nb == 0 or len(P.args) < 2:
+            continue
+        A = gfi.base_assume(P, in_range=False)
+        for sub in ((), tuple(range(len(P.sites)))):
+            def fc(key, args, vals, P=P, nb=nb, sub=sub):
+                clo = P.gf(*args[:nb])
+                tr, w = clo.importance(key, P.chm(vals, subset=sub), tuple(args[nb:]))
+                tvals = gfi.trace_vals(P, tr)
+                r = P.ref(args, tvals)
+                return (w, tr.get_score()), (sum((jnp.sum(r.terms[i]) for i in sub), jnp.float32(0.0)), r.score)
+
+            obs.append(Ob(f"C03/closure[{nb}]-importance{list(sub)}/{nm}", fc, (gfi.KEY, P.args, P.example_vals()), assume=lambda k, a, v, A=A: A(a, v),
+                          note="importance through gen_fn(*bound)(...) with further positional arguments: weight and score are those of the program on bound + extra arguments"))
     return obs
